@@ -941,6 +941,9 @@ func gen(state bool) func(rng *rand.Rand, tier string) []string {
 					out = append(out, "setroutine 0")
 				}
 				out = append(out, "exit old ctx", "exit old ctx", "settle")
+			case r < 56 && !retry:
+				// restart rules: let the instance fail or succeed, let that be recorded, then move the context
+				out = append(out, exit(), "settle", fmt.Sprintf("setctx %d %d", 1+rng.Intn(2), rng.Intn(2)), "settle")
 			case r < 58:
 				out = append(out, fmt.Sprintf("cancelroot %d", 1+rng.Intn(2)))
 			case r < 64:
@@ -993,6 +996,9 @@ func init() {
 			{"cfg plain 0 0 0", "setroutine 1", "setctx 1 0", "settle", "clearctx", "setroutine 2", "setctx 1 0", "settle", "probe", "quiesce", "exit old ctx", "quiesce", "exit old ok", "quiesce"},
 			// three supersessions of different kinds, set/clear context around them
 			{"cfg plain 0 0 2", "setctx 1 0", "setroutine 1", "settle", "setroutine 2", "clearctx", "setctx 2 0", "restart", "probe", "settle", "exit old err 1", "quiesce", "exit old ok", "quiesce"},
+			// restart rules without retry: a failed routine is not re-run by SetContext(restart=false) but by restart=true;
+			// a successful one by neither, only by RestartRoutine
+			{"cfg plain 0 0 1", "setctx 1 0", "setroutine 1", "settle", "exit old err 2", "settle", "setctx 2 0", "settle", "quiesce", "setctx 2 1", "settle", "exit old ok", "settle", "quiesce", "setctx 1 0", "settle", "setctx 1 1", "settle", "quiesce", "restart", "settle", "exit old ok", "quiesce"},
 			// retry with backoff: error, retry, error, retry, stop; restart; success resets
 			{"cfg plain 0 1 2 dds 3", "setctx 1 0", "setroutine 1", "settle", "exit old err 1", "advance", "exit old err 2", "advance", "exit old err 3", "advance", "restart", "settle", "exit old ok", "advance", "restart", "settle", "exit old err 1", "advance", "exit old ok", "quiesce"},
 			// WaitExited around exits and supersession
